@@ -594,9 +594,10 @@ def _oracle_history(case, fails):
         if be == "generic":
             _history(canons["nauty"], "nauty", D, "relabel_nodes of a generic canonical twin", fails)
         D = cg.copy()
+        c.canonical_signature(D)      # used once, then edited in place: an answer remembered per object would now be stale
         D.add_node(n + 4, element="N", aromatic=False, charge=0, hcount=1)
         D.add_edge(ids[0], n + 4, order=1.0)
-        _history(c, be, D, "canonical twin + one atom", fails)
+        _history(c, be, D, "canonical twin + one atom (edited in place after a first use)", fails)
         if n >= 2:
             D = cg.copy()
             if D.number_of_edges():
